@@ -129,10 +129,16 @@ package transaction
 //@ func Registry.Get
 //@   ensures !result1 ==> result0 == nil
 //@   ensures result1 ==> result0 != nil
+//@ ghost field (Transaction) fullIters int
+//@ ghost field (Transaction) rangeIters int
+//@ ghost field (Transaction) lastStart []byte
+//@ ghost field (Transaction) lastEnd []byte
 //@ func Transaction.NewIterator
-//@   ensures result != nil
+//@   havocs self.fullIters
+//@   ensures result != nil && self.fullIters == old(self.fullIters) + 1
 //@ func Transaction.NewRangeIterator
-//@   ensures result != nil
+//@   havocs self.rangeIters, self.lastStart, self.lastEnd
+//@   ensures result != nil && self.rangeIters == old(self.rangeIters) + 1 && self.lastStart == startKey && self.lastEnd == endKey
 
 // ---- C03: the buffer captures keys and values at call time (fresh copies, equal content, nil-ness kept),
 // the last operation on a key wins, other keys are untouched.
